@@ -41,6 +41,7 @@ var depths = map[string][4]int{
 	"public":     {2, 3, 1, 1},
 	"claim":      {1, 2, 1, 2},
 	"illegalact": {1, 2, 1, 2},
+	"v2illegal":  {1, 2, 1, 1},
 }
 
 // artefact of a violation / replay
